@@ -10,11 +10,11 @@ import knncheck as KC
 ELIGIBLE = [m for m in T.ALL if "sym" in T.claims(m) and "nonneg" in T.claims(m) and "zero_self" in T.claims(m)]
 
 
-def tie_free_instance(rng, metric, nmax):
+def tie_free_instance(rng, metric, nmax, want_zeros=None):
     n = rng.randint(3, nmax)
     dom = T.domain(metric)
-    dim = rng.randint(1, 4)
-    zeros = dim >= 2 and rng.random() < 0.4
+    dim = rng.randint(1, 4) if not want_zeros else rng.randint(2, 4)
+    zeros = (dim >= 2 and rng.random() < 0.4) if want_zeros is None else want_zeros
     for _ in range(60):
         if dom == "real" and metric != "hamming":
             X = [[rng.uniform(-10, 10) for _ in range(dim)] for _ in range(n)]
@@ -54,8 +54,10 @@ def main(tier, seed):
     for metric in ELIGIBLE:
         if metric == "hamming":
             continue    # integer-valued: distinct pairwise distances essentially never occur
-        for _ in range(per_metric):
-            it = tie_free_instance(rng, metric, 8 if tier == "quick" else 12)
+        for rep_i in range(per_metric):
+            # every metric on a non-negative class sees sparse rows (exact zeros) in half of its instances, whatever the seed
+            wz = None if T.domain(metric) in ("real", "posonly") else (rep_i % 2 == 1)
+            it = tie_free_instance(rng, metric, 8 if tier == "quick" else 12, want_zeros=wz)
             if it is None:
                 stats["rejected"] += 1
                 continue
